@@ -616,3 +616,285 @@ def run_history(ops, work, tag="h", want_digests=False):
     os.remove(path)
     return {"steps": steps, "digests": digests if want_digests else None, "validations": im.validations,
             "final_validation": final_validation, "root_path": root_path}
+
+
+# ============================================================================= extended model (Model/WsX.v)
+# property groups and copies; identifiers are the uuid's integer minus one (arbitrary size), so that the fresh
+# identifiers the code draws for copies and groups can be carried by the operations of the history.
+def gen_history_x(rng, length):
+    """history for the extended model: the base generator's ops interleaved with pg_add / pg_remove / copy."""
+    base = gen_history(rng, length, {"final_sweeps": rng.chance(50)})
+    ops = []
+    live_data = {}   # object key -> list of data keys (shadow, conservative)
+    groups = {("G", 0)}
+    objs = set()
+    pgn = [0]
+    for op in base:
+        ops.append(op)
+        o = op["op"]
+        if o == "create":
+            k = (op["kind"], op["n"])
+            if op["kind"] == "G":
+                groups.add(k)
+            elif op["kind"] == "O":
+                objs.add(k)
+                live_data.setdefault(k, [])
+            else:
+                live_data.setdefault(tuple(op["parent"]), []).append(k)
+        elif o in ("rm_ws", "rm_parent"):
+            k = tuple(op["e"])
+            groups.discard(k)
+            objs.discard(k)
+            for lst in live_data.values():
+                if k in lst:
+                    lst.remove(k)
+        if o in ("reopen", "sweep") or not rng.chance(45):
+            continue
+        w = rng.weighted([("pg_add", 45), ("pg_remove", 10), ("copy", 45)])
+        cands = [k for k in objs if live_data.get(k)]
+        if w == "pg_add" and cands:
+            ob = rng.choice(sorted(cands))
+            ms = rng.sample(live_data[ob], rng.range(1, min(3, len(live_data[ob]))))
+            if rng.chance(15):
+                ms = ms + [["D", 9999]]          # not a child: skipped by the API
+            if rng.chance(10):
+                ms = [["D", 9998]]               # nothing valid: the API raises
+            pgn[0] = pgn[0] + 1 if rng.chance(60) else max(1, pgn[0])   # new name, or an existing one again
+            ops.append({"op": "pg_add", "o": list(ob), "name": 500 + pgn[0], "members": [list(m) for m in ms], "g": None})
+        elif w == "pg_remove" and cands:
+            ops.append({"op": "pg_remove", "o": list(rng.choice(sorted(cands))), "which": rng.below(3), "g": None})
+        elif w == "copy":
+            pool = sorted(objs) + sorted(g for g in groups if g != ("G", 0))
+            if pool:
+                e = rng.choice(pool)
+                q = rng.choice(sorted(groups))
+                ops.append({"op": "copy", "e": list(e), "q": list(q), "ids": None})
+            elif cands:
+                ob = rng.choice(sorted(cands))
+                ops.append({"op": "copy", "e": list(rng.choice(live_data[ob])), "q": list(rng.choice(sorted(objs))), "ids": None})
+    return ops
+
+
+class ImplX(Impl):
+    def key_of(self, ent):
+        k = super().key_of(ent)
+        if k != ["G", 0]:
+            k[1] = ent.uid.int - 1
+        return k
+
+    def key_of_uidstr(self, cont, s):
+        import uuid
+
+        u = uuid.UUID(s)
+        if u == self.root_uid:
+            return ["G", 0]
+        return [CONT_INV.get(cont, "?"), u.int - 1]
+
+    @staticmethod
+    def _pgname(s):
+        return int(s[1:]) if isinstance(s, str) and s.startswith("n") and s[1:].isdigit() else -1
+
+    def pgs_of(self, e):
+        out = []
+        for pg in (getattr(e, "property_groups", None) or []):
+            out.append([pg.uid.int - 1, self._pgname(pg.name), [["D", u.int - 1] for u in (pg.properties or [])]])
+        return out
+
+    def apply(self, op):
+        import gc
+
+        o = op["op"]
+        if o not in ("pg_add", "pg_remove", "copy"):
+            return super().apply(op)
+        try:
+            if o == "pg_add":
+                ob = self.find(op["o"])
+                if ob is None:
+                    return "refused"
+                ents = []
+                for m in op["members"]:
+                    c = [c for c in ob.children if hasattr(c, "entity_type") and self.key_of(c) == list(m)]
+                    if c:
+                        ents.append(c[0])
+                    else:
+                        import uuid
+
+                        ents.append(uuid.UUID(int=m[1] + 1))   # an identifier that is not a child of the object
+                try:
+                    pg = ob.add_data_to_group(ents, f"n{op['name']}")
+                except ValueError:
+                    return "raised"
+                op["g"] = pg.uid.int - 1
+                del pg, ents
+            elif o == "pg_remove":
+                ob = self.find(op["o"])
+                if ob is None:
+                    return "refused"
+                pgs = list(ob.property_groups or [])
+                if not pgs:
+                    op["g"] = 1
+                    return "refused"
+                pg = pgs[op["which"] % len(pgs)]
+                op["g"] = pg.uid.int - 1
+                self.ws.remove_entity(pg)
+                del pg, pgs
+            else:
+                e, q = self.find(op["e"]), self.find(op["q"])
+                if e is None or q is None:
+                    op["ids"] = []
+                    return "refused"
+                x = q
+                while x is not None and x is not self.ws.root:
+                    if x is e:
+                        op["ids"] = []
+                        return "refused"
+                    x = x.parent
+                from geoh5py.data import Data
+                from geoh5py.groups import Group
+                from geoh5py.objects import ObjectBase
+
+                ok = (isinstance(e, Data) and isinstance(q, ObjectBase)) or (not isinstance(e, Data) and isinstance(q, Group))
+                if not ok:
+                    op["ids"] = []
+                    return "refused"
+                c = e.copy(parent=q)
+
+                def ids(t):
+                    out = [t.uid.int - 1]
+                    kids = [k for k in getattr(t, "children", []) if hasattr(k, "entity_type")]
+                    if isinstance(t, ObjectBase):
+                        out += [k.uid.int - 1 for k in kids] + [pg.uid.int - 1 for pg in (t.property_groups or [])]
+                    else:
+                        for k in kids:
+                            out += ids(k)
+                    return out
+
+                op["ids"] = ids(c)
+                del c, e, q
+        finally:
+            gc.collect()
+        return "done"
+
+    def dump_mem(self):
+        rows = super().dump_mem()
+        # attach property groups (objects only)
+        byk = {}
+
+        def walk(e):
+            byk[tuple(self.key_of(e))] = self.pgs_of(e)
+            for c in getattr(e, "children", []):
+                if hasattr(c, "entity_type"):
+                    walk(c)
+
+        walk(self.ws.root)
+        for r in rows:
+            r["pgs"] = byk.get(tuple(r["key"]), [])
+        return rows
+
+    def dump_file(self, f=None):
+        d = super().dump_file(f)
+        f = f if f is not None else self.ws.geoh5
+        proj = f[list(f)[0]]
+        for n in d["nodes"]:
+            n["pgs"] = []
+            cont = CONT[n["key"][0]]
+            import uuid
+
+            us = "{%s}" % (self.root_uid if n["key"] == ["G", 0] else uuid.UUID(int=n["key"][1] + 1))
+            node = proj[cont].get(us)
+            if node is not None and "PropertyGroups" in node:
+                for pu in node["PropertyGroups"]:
+                    a = node["PropertyGroups"][pu].attrs
+                    nm = a.get("Group Name")
+                    nm = nm.decode() if isinstance(nm, bytes) else nm
+                    props = a.get("Properties", [])
+                    mem = []
+                    for x in list(props) if hasattr(props, "__iter__") and not isinstance(props, (str, bytes)) else []:
+                        x = x.decode() if isinstance(x, bytes) else str(x)
+                        mem.append(["D", uuid.UUID(x).int - 1])
+                    n["pgs"].append([uuid.UUID(pu).int - 1, self._pgname(nm), mem])
+        return d
+
+
+def cattrs_x(r, sort_pgs=False):
+    pgs = r.get("pgs", [])
+    if any(g[1] < 0 for g in pgs):
+        return None
+    if sort_pgs:
+        pgs = sorted(pgs, key=lambda g: g[0])
+    return "{| aname := %s; adel := %s; aarr := %s; apgs := %s |}" % (
+        cN(r["name"]), cbool(r["del"]), cN(r["arr"]),
+        clist("(%s, %s, %s)" % (cN(g[0]), cN(g[1]), clist(ckey(m) for m in g[2])) for g in pgs))
+
+
+def cop_x(op):
+    o = op["op"]
+    if o == "pg_add":
+        return f"PgAdd {ckey(op['o'])} {cN(op['g'] if op['g'] is not None else 1)} {cN(op['name'])} {clist(ckey(m) for m in op['members'])}"
+    if o == "pg_remove":
+        return f"PgRemove {ckey(op['o'])} {cN(op['g'] if op['g'] is not None else 1)}"
+    if o == "copy":
+        return f"Copy {ckey(op['e'])} {ckey(op['q'])} {clist(cN(i) for i in (op['ids'] or []))}"
+    return cop(op)
+
+
+def truncate_x(ops, steps):
+    """The extended model keeps an object's data children and its property groups in two lists; Python keeps them in ONE
+    children list, whose interleaving decides which property groups a removal that is refused half-way (a protected data
+    child) has already deleted.  Histories are compared up to (not including) the first such step."""
+    for i, (op, st) in enumerate(zip(ops, steps)):
+        if op["op"] == "rm_ws" and st["outcome"] == "raised" and i > 0 and any(r.get("pgs") for r in steps[i - 1]["mem"]):
+            return ops[:i], steps[:i], True
+    return ops, steps, False
+
+
+def history_case_term_x(ops, steps):
+    ops, steps, _ = truncate_x(ops, steps)
+    rows = []
+    for st in steps:
+        m = []
+        for r in st["mem"]:
+            a = cattrs_x(r)
+            if a is None or not (_ok_key(r["key"]) and _ok_key(r["parent"]) and r["name"] >= 0 and r["arr"] >= 0):
+                return "false"
+            m.append("(%s, %s, %s, %s)" % (ckey(r["key"]), a, ckey(r["parent"]), clist(ckey(k) for k in r["kids"])))
+        fr = []
+        for r in st["file"]["nodes"]:
+            a = cattrs_x(r)   # the file lists the blocks by name: compared as a set inside Coq
+            if a is None or not _ok_key(r["key"]) or r["name"] < 0 or r["arr"] < 0:
+                return "false"
+            links = clist("(%s, %s)" % (ckey(l[0]), "None" if l[1] is None else f"Some {cbool(l[1])}") for l in r["links"])
+            fr.append("(%s, %s, %s)" % (ckey(r["key"]), a, links))
+        root = st["file"]["root"]
+        rt = "None" if root is None else "Some (%s, %s)" % (ckey(root[0]), "None" if root[1] is None else f"Some {cbool(root[1])}")
+        if st["outcome"] not in OUTC:
+            return "false"
+        rows.append(f"({OUTC[st['outcome']]}, {clist(m)}, ({clist(fr)}, {rt}))")
+    return "check_history %s %s" % (clist(cop_x(o) for o in ops), clist(rows))
+
+
+def run_history_x(ops, work, tag="hx", want_digests=False):
+    import copy
+    import os
+
+    ops = copy.deepcopy(ops)
+    path = f"{work}/{tag}.geoh5"
+    if os.path.exists(path):
+        os.remove(path)
+    im = ImplX(path)
+    steps = []
+    digests = [node_digests(im.ws.geoh5)] if want_digests else []
+    for op in ops:
+        try:
+            outc = im.apply(op)
+        except Exception as e:  # noqa: BLE001
+            outc = f"error:{type(e).__name__}:{str(e)[:120]}"
+        steps.append({"outcome": outc, "mem": im.dump_mem(), "file": im.dump_file()})
+        if want_digests:
+            digests.append(node_digests(im.ws.geoh5))
+    root_path = "Groups/{%s}" % im.root_uid
+    im.ws.close()
+    final_validation = validate_geoh5(path)
+    os.remove(path)
+    return {"ops_filled": ops, "steps": steps, "digests": digests if want_digests else None, "validations": im.validations,
+            "final_validation": final_validation, "root_path": root_path}
